@@ -26,6 +26,9 @@ pub async fn restart_node_service(
     peer_id: PeerId,
     retain_peer_id: bool,
 ) -> Result<()> {
+    // verification harness only: `ServiceController {}` below is the forwarding stand-in of `crate::verif`
+    #[cfg(maidsafe_safe_network_verif)]
+    use crate::verif::ServiceController;
     let nodes_len = node_registry.nodes.len();
     let current_node_mut = node_registry
         .nodes
